@@ -40,6 +40,14 @@ def generate(rng, tier):
     for _ in range(n):
         c = pc.gen_case(rng, tier, MODES, maxops=10 if tier == "quick" else 24)
         c["whole_font"] = True
+        r = rng.random()
+        if r < 0.25 and c["spec"]["data"]:
+            # a file of the UFO is given new content - also the empty one - and read again before anything is saved
+            n = rng.choice(sorted(c["spec"]["data"]))
+            c["ops"] = [["dat", n, rng.choice([0, 0, 5])], ["datget", n]] + c["ops"]
+        elif r < 0.4 and c["spec"]["images"]:
+            n = rng.choice(sorted(c["spec"]["images"]))
+            c["ops"] = [["img", n, 9], ["imgget", n]] + c["ops"]
         yield c
 
 
